@@ -2,7 +2,7 @@
 C23 - RUN, CLEAR and NEW reset everything; CHAIN keeps exactly the COMMON variables.
 
 E2-style exhaustive history enumeration (no sampling), every case on a FRESH session:
-  reset   every subset of <=2 (quick) / <=4 (thorough) state builders out of 19 (scalars of 4 types,
+  reset   every subset of <=3 (quick) / <=5 (thorough) state builders out of 19 (scalars of 4 types,
           literal / heap / 255-char strings, string churn, 1-D int, string and 2-D arrays, DEF FN, DEFtype,
           OPTION BASE 1, open FOR / WHILE / GOSUB frames, ON ERROR GOTO, stopped inside the error
           handler, RANDOMIZE+RND) built by a program that STOPs inside its frames, followed by each of 13
@@ -23,7 +23,7 @@ PROPERTY = 'C23'
 ENGINE = 'E2 bfs'
 LEVEL = 'model_checking'
 LEVEL_TEXT = (
-    'All combinations of up to 4 (quick: 2) state builders out of 19 - each touching one component named '
+    'All combinations of up to 5 (quick: 3) state builders out of 19 - each touching one component named '
     'in the property (variables of every type, arrays, DEF FN, DEFtype, OPTION BASE, FOR/WHILE/GOSUB '
     'frames, error trap, active error handler, random sequence) - are built on a fresh interpreter, '
     'followed by each of 13 forms of RUN / CLEAR / NEW / line edit, and every component is then observed '
@@ -39,8 +39,8 @@ TECHNIQUE = ('bounded exhaustive enumeration of state-building histories x reset
              'interpreter through Session.execute, compared with a dict model of the assigned values and '
              'with fresh-session behaviour')
 RULE = ('reset: all builder subsets up to size k x 13 reset forms; chain: all ordered variable histories up '
-        'to length d x COMMON lists x CHAIN forms x base x memory; a case class is (reset/chain form, set of '
-        'builder kinds, outcome); non-trivial = any case with at least one builder')
+        'to length d x COMMON lists x CHAIN forms x base x memory; a case class is (reset kind, builder) / '
+        '(reset form, number of builders) / (CHAIN form, history length, COMMON size, base, memory, outcome); non-trivial = any case with at least one builder')
 ASSUMPTIONS = [
     'absence of a scalar is observed as VARPTR raising Illegal function call; absence of an array as '
     'DIM succeeding; values through Session.get_variable (public API)',
@@ -446,8 +446,9 @@ def work_reset(shard):
         part.n += 1
         part.traces += 1
         part.outcome(oc)
-        kinds = sorted(set(b[0] if b in VARORDER else b for b in builders))
-        part.classes.add('%s|%s' % (RESETS[ri][0], '+'.join(kinds) or '-'))
+        part.classes.add('%s|n%d' % (RESETS[ri][0], len(builders)))
+        for b in builders:
+            part.classes.add('%s|%s' % (RESETS[ri][1], b))
     part.sample({'builders': list(shard[0][0]), 'reset': RESETS[shard[0][1]][0]})
     return part
 
@@ -543,7 +544,7 @@ def work_chain(shard):
         part.traces += 1
         part.outcome(oc)
         part.classes.add('%s|n%d|c%d|%s%s%s|%s' % (
-            CHAINS[chi][0], len(order), len(COMMONS[ci]), 'b1' if base else 'b0', 't%d' % tight if tight else '',
+            CHAINS[chi][0], len(order), min(len(COMMONS[ci]), 2), 'b1' if base else 'b0', 't%d' % tight if tight else '',
             'x' if extras else '', oc[:3]))
     o = shard[0]
     part.sample({'ops': [VAROPS[x] for x in o[0]], 'common': COMMONS[o[1]], 'chain': CHAINS[o[2]][0]})
@@ -560,7 +561,7 @@ def _subsets(items, k):
 
 def legs(ctx):
     out = []
-    k = 2 if ctx.quick else 4
+    k = 3 if ctx.quick else 5
     cases = []
     for sub in _subsets(BUILDERS, k):
         if 'sB' in sub and 'sH' in sub and False:
@@ -582,8 +583,6 @@ def legs(ctx):
                 if len(order) <= 1:
                     combos += [(1, 0, 0, 1), (5, 0, 600, 0), (0, 0, 0, 1)]
             else:
-                if len(order) == 3 and ci not in REDUCED_COMMONS:
-                    continue
                 combos = [(chi, base, 0, 0) for chi in range(len(CHAINS)) for base in (0, 1)]
                 combos += [(chi, 0, 600, 0) for chi in range(len(CHAINS))]
                 combos += [(0, 0, 330, 0), (3, 0, 330, 0), (4, 1, 600, 0)]
@@ -596,7 +595,7 @@ def legs(ctx):
                        len(orders), d, len(VARORDER), len(COMMONS),
                        '5-8 (CHAIN form, OPTION BASE, memory) combinations' if ctx.quick else
                        '21 (CHAIN form, OPTION BASE, memory normal/600/330 bytes free) combinations (+ DEF FN/'
-                       'DEFtype extras for histories <=1; histories of length 3 with 8 of the COMMON lists)') + '; %d cases' % len(ccases)))
+                       'DEFtype extras for histories <=1') + '; %d cases' % len(ccases)))
     return out
 
 
